@@ -387,6 +387,40 @@ impl Check for C04 {
                 }
             }
         });
+        // the stroked region does not depend on the path's own fill rule, nor on the size of the
+        // user unit: the same device geometry from a path 10^5 times smaller under scale 10^5
+        // (every user-space segment is shorter than 2^-12), and 10^3 times larger under 10^-3
+        run.bound("fill-rule flag and extreme user units", "3-vertex polylines over the 16 grid points x (round cap, square cap, closed) x (round, miter 4) x width 8: path flagged EvenOdd; path / 1e5 under scale 1e5; path x 1e3 under scale 1e-3".to_string());
+        run.par(g.len() * g.len(), |s, l| {
+            let (i0, i1) = (s / g.len(), s % g.len());
+            if i0 == i1 {
+                return;
+            }
+            for i2 in 0..g.len() {
+                if i2 == i1 || (q && (i0 + i1 + i2) % 3 != 0) {
+                    continue;
+                }
+                let pts = [g[i0], g[i1], g[i2]];
+                for variant in [1u8, 2, 3] {
+                    for (join, miter) in [(0u8, 4.0f32), (2, 4.0)] {
+                        let cap = if variant < 3 { variant } else { 0 };
+                        let mk = |k: f32, eo: bool| {
+                            let mut ops: Vec<POp> = pts.iter().enumerate().map(|(j, p)| if j == 0 { POp::M(p.0 * k, p.1 * k) } else { POp::L(p.0 * k, p.1 * k) }).collect();
+                            if variant == 3 {
+                                ops.push(POp::Z);
+                            }
+                            PathSpec { evenodd: eo, ops }
+                        };
+                        let st = StyleSpec { width: 8.0, cap, join, miter, dash: vec![], offset: 0. };
+                        account(run, 9000 + s, l, &mk(1.0, true), &st, &IDENT, false);
+                        for k in [1e-5f32, 1e3] {
+                            let stk = StyleSpec { width: 8.0 * k, ..st.clone() };
+                            account(run, 9000 + s, l, &mk(k, false), &stk, &[1.0 / k, 0., 0., 1.0 / k, 0., 0.], false);
+                        }
+                    }
+                }
+            }
+        });
         // degenerate widths paint nothing
         run.bound("degenerate widths", "widths 0, -0, -1, -MIN_POSITIVE, NaN, -inf x 16^2 segments x 3 caps".to_string());
         run.par(g.len(), |s, l| {
